@@ -40,10 +40,12 @@ type wParams struct {
 	Timeout   int    `json:"timeout,omitempty"` // seconds; 0 = default 20
 	Columns   int    `json:"columns,omitempty"`
 
+	Mitm      *wMitm       `json:"mitm,omitempty"` // field-aware substitution in one protocol line
 	MsgFaults []wMsgFault  `json:"msgfaults,omitempty"`
 	Local     *wLocalFault `json:"local,omitempty"`
 	WireCap   int          `json:"wirecap,omitempty"` // bytes of back-pressure on the wires (0 = unbounded)
 	Faults    []wFault `json:"faults,omitempty"` // byte-level faults on the connection (wire next to the client, or the tunnel)
+	Probe     bool `json:"probe,omitempty"` // after the transfer, check that the session passes bytes through again
 	RawClient bool `json:"rawclient,omitempty"` // uploads: raw sending client built from product functions instead of the filter
 	FdLimit int   `json:"fdlimit,omitempty"` // RLIMIT_NOFILE during the execution (0 = unchanged)
 
@@ -52,6 +54,87 @@ type wParams struct {
 	Tree   string `json:"tree"`             // source tree recipe
 	DstPre string `json:"dstpre,omitempty"` // destination pre-population recipe
 	Seg    string `json:"seg,omitempty"`    // "", "byte", "coalesce", "cut:<c2s|s2c>:<offset>"
+}
+
+// wMitm replaces one field of the Line-th protocol line of a direction (0-based, counting lines that
+// start with '#').
+type wMitm struct {
+	Dir   string `json:"dir"`
+	Line  int    `json:"line"`
+	Field string `json:"field"` // "type" | "raw" (whole payload as is) | "int" | "int0" | "int1" (a/b acks) | "inner" (decoded string) | "json:<member>" | "binsize"
+	Value string `json:"value"` // replacement; for json members a JSON literal
+}
+
+// mitmFilter applies m to the stream written to a wire. Lines are recognised per written chunk
+// (the product writes whole lines), binary payloads pass through.
+func mitmFilter(m *wMitm, dir string) func([]byte) []byte {
+	if m == nil || m.Dir != dir {
+		return nil
+	}
+	line := 0
+	skip := 0 // bytes of a binary payload still to pass through
+	return func(b []byte) []byte {
+		if skip > 0 {
+			if len(b) <= skip {
+				skip -= len(b)
+				return b
+			}
+			skip = 0
+		}
+		if len(b) == 0 || b[0] != '#' {
+			return b
+		}
+		colon := bytes.IndexByte(b, ':')
+		end := bytes.IndexAny(b, "!\n")
+		if colon < 0 {
+			return b
+		}
+		if end < 0 {
+			end = len(b)
+		}
+		my := line
+		line++
+		typ, payload, tail := string(b[1:colon]), string(b[colon+1:end]), string(b[end:])
+		if my != m.Line {
+			return b
+		}
+		mk := func(t, p string) []byte { return []byte("#" + t + ":" + p + tail) }
+		switch {
+		case m.Field == "type":
+			return mk(m.Value, payload)
+		case m.Field == "raw" || m.Field == "int" || m.Field == "binsize":
+			return mk(typ, m.Value)
+		case m.Field == "int0" || m.Field == "int1":
+			parts := strings.SplitN(payload, "/", 2)
+			if len(parts) == 2 {
+				if m.Field == "int0" {
+					parts[0] = m.Value
+				} else {
+					parts[1] = m.Value
+				}
+				return mk(typ, parts[0]+"/"+parts[1])
+			}
+			return b
+		case m.Field == "inner":
+			return mk(typ, encodeString(m.Value))
+		case strings.HasPrefix(m.Field, "json:"):
+			raw, err := decodeString(payload)
+			if err != nil {
+				return b
+			}
+			var obj map[string]json.RawMessage
+			if json.Unmarshal(raw, &obj) != nil {
+				return b
+			}
+			obj[m.Field[5:]] = json.RawMessage(m.Value)
+			j, err := json.Marshal(obj)
+			if err != nil {
+				return b
+			}
+			return mk(typ, encodeString(string(j)))
+		}
+		return b
+	}
 }
 
 // wMsgFault is a message-level connection fault: from the k-th written chunk of a direction on, the
@@ -370,6 +453,7 @@ type world struct {
 	cliDone     bool
 	uploadRes   <-chan error
 	uploadErr   string
+	probeN      int
 
 	hookErr func(name string, args ...any) error
 	// hostile-peer support (C09, C12): doctored source records instead of a scan of the source tree,
@@ -404,6 +488,8 @@ type worldResult struct {
 	CliDoneAt    time.Duration
 	End          time.Duration
 	Transferring bool // filter still thinks a transfer is in progress at the end
+	ProbeOut     string // "ok", or what went wrong with the transparency probe after the transfer
+	TunLogS2C    []vs.Stamp
 	Quiet        bool // the world went quiescent (false: something was still running when the observation was taken)
 }
 
@@ -569,15 +655,15 @@ func buildWorld(p wParams) *world {
 		// with a tunnel the transfer's bytes travel over the connection nearest to the client
 		vs.OnDial = func(cli, srv *vs.Conn) {
 			if cli.Tag == "client" {
-				cli.OutPipe().Filter = chainFilters(actMitm, faultFilter(p.Faults, "c2s"), msgFilter("c2s"))
-				srv.OutPipe().Filter = chainFilters(faultFilter(p.Faults, "s2c"), msgFilter("s2c"))
+				cli.OutPipe().Filter = chainFilters(actMitm, mitmFilter(p.Mitm, "c2s"), faultFilter(p.Faults, "c2s"), msgFilter("c2s"))
+				srv.OutPipe().Filter = chainFilters(mitmFilter(p.Mitm, "s2c"), faultFilter(p.Faults, "s2c"), msgFilter("s2c"))
 				cli.OutPipe().WriteErr, srv.OutPipe().WriteErr = werr("c2s"), werr("s2c")
 				cli.OutPipe().Cap, srv.OutPipe().Cap = p.WireCap, p.WireCap
 			}
 		}
 	} else {
-		w.c2s[0].Filter = chainFilters(actMitm, faultFilter(p.Faults, "c2s"), msgFilter("c2s"))
-		w.s2c[0].Filter = chainFilters(faultFilter(p.Faults, "s2c"), msgFilter("s2c"))
+		w.c2s[0].Filter = chainFilters(actMitm, mitmFilter(p.Mitm, "c2s"), faultFilter(p.Faults, "c2s"), msgFilter("c2s"))
+		w.s2c[0].Filter = chainFilters(mitmFilter(p.Mitm, "s2c"), faultFilter(p.Faults, "s2c"), msgFilter("s2c"))
 		w.c2s[0].WriteErr, w.s2c[0].WriteErr = werr("c2s"), werr("s2c")
 	}
 	for i := range w.c2s {
@@ -849,7 +935,7 @@ func (w *world) result(s *vs.Sched) *worldResult {
 			r.TunC2S, r.TunS2C = c.Sent(), c.Received()
 			r.ClientGot = append(append([]byte(nil), r.ClientGot...), c.Received()...)
 			r.TunMsgsC2S, r.TunMsgsS2C = len(c.OutPipe().Log), len(c.InPipe().Log)
-			r.TunLogC2S = c.OutPipe().Log
+			r.TunLogC2S, r.TunLogS2C = c.OutPipe().Log, c.InPipe().Log
 		}
 		if strings.HasSuffix(c.Name, ".server") && c.Tag == w.srvConnTag() {
 			srvStreams = append(srvStreams, c.Sent())
@@ -876,6 +962,27 @@ func (w *world) result(s *vs.Sched) *worldResult {
 	r.DstFull = snapshotFull(w.dstRoot)
 	r.Outside = outsideSnapshot(w.root)
 	return r
+}
+
+// probe checks transparency after a transfer: text printed by the remote shell must reach the
+// terminal and typed input must reach the remote side, each exactly once.
+func (w *world) probe() string {
+	n := len(w.c2s) - 1
+	w.probeN++
+	out := fmt.Sprintf("probe-out-%d$ \r\n", w.probeN)
+	in := fmt.Sprintf("probe-in-%d", w.probeN)
+	w.s2c[n].Write([]byte(out))
+	w.keys.Write([]byte(in))
+	vs.WaitSettled(func() bool {
+		return bytes.Contains(w.term.Written, []byte(out)) && bytes.Contains(w.c2s[n].Written, []byte(in))
+	}, 500)
+	if c := bytes.Count(w.term.Written, []byte(out)); c != 1 {
+		return fmt.Sprintf("remote output reached the terminal %d times", c)
+	}
+	if c := bytes.Count(w.c2s[n].Written, []byte(in)); c != 1 {
+		return fmt.Sprintf("typed input reached the remote side %d times", c)
+	}
+	return "ok"
 }
 
 // srvConnTag is the tag of the tunnel connection that ends at the server.
@@ -963,9 +1070,14 @@ func runWorldWith(p wParams, cfg vs.Config, prefix, prefixN []int, extra func(w 
 			}
 			return w.srvDone && w.srvStarted && !w.filter.IsTransferringFiles()
 		}, 3000)
+		probe := ""
+		if p.Probe && w.filter != nil {
+			probe = w.probe()
+		}
 		vs.Peek(func() {
 			res = w.result(nil)
 			res.Transferring = w.filter != nil && w.filter.IsTransferringFiles()
+			res.ProbeOut = probe
 		})
 		res.End = vs.Elapsed()
 		res.Alive = vs.AliveNow()
